@@ -24,6 +24,14 @@ Proof.
   - inversion H; subst. lia.
 Qed.
 
+(* a turn of the scheduler executes at most r_slice units *)
+Theorem turn_bounded b1 b2 r i x r' v :
+  visit_ctx b1 b2 r i = Ok (x, r', v) -> i < length (r_ctxs r) -> v_instr v + v_restarts v <= r_slice r.
+Proof.
+  intros V Hi. destruct (nth_error (r_ctxs r) i) as [c00|] eqn:Hc; [|apply nth_error_None in Hc; lia].
+  destruct (visit_ctx_shape _ _ _ _ _ _ _ _ V Hc) as (_ & _ & Sh). eapply visit_shape_slice; eauto.
+Qed.
+
 (* ================================================================== ids *)
 Lemma remove_nth_map {A B} (f:A->B) l : forall i, map f (remove_nth l i) = remove_nth (map f l) i.
 Proof. induction l; intros [|i]; cbn; auto. f_equal. auto. Qed.
@@ -59,7 +67,7 @@ Proof.
   intros V Hc W. destruct (visit_ctx_shape _ _ _ _ _ _ _ _ V Hc) as (A & B & Sh). split; auto. split; auto.
   pose proof (vs_ctxs _ _ _ (visit_shape_vstep _ _ _ _ _ _ _ _ Sh Hc)) as E.
   destruct (evolves_ids _ _ _ _ _ E) as (sp & E1 & E2 & E3 & E4).
-  exists sp. repeat split; auto. eapply wf_ids_ext; eauto.
+  exists sp. split; [exact E1|]. split; auto. split; auto. split; auto. eapply wf_ids_ext; eauto.
 Qed.
 
 Lemma retire_ids r2 i : ids (retire r2 i) = remove_nth (ids r2) i.
@@ -76,6 +84,9 @@ Proof.
   intros [Nd Lt]. unfold wf_ids. rewrite retire_ids, retire_next_id. split; [apply remove_nth_NoDup; auto|].
   rewrite Forall_forall in *. intros x Hx. apply remove_nth_incl in Hx. auto.
 Qed.
+
+Lemma NoDup_mid_notin {A} (d:list A) c t : NoDup (d ++ c :: t) -> ~ In c t.
+Proof. intros H Hin. apply NoDup_remove_2 in H. apply H. apply in_or_app; auto. Qed.
 
 (* ================================================================== one pass is one round of the queue *)
 Lemma filter_app_kept (a b:list visit) : filter kept (a ++ b) = filter kept a ++ filter kept b.
@@ -102,7 +113,9 @@ Proof.
     assert (todo = []).
     { assert (length (ids r) = length (r_ctxs r)) by (unfold ids; apply map_length).
       rewrite E, app_length in H0. destruct todo; auto. cbn in H0. lia. }
-    subst todo. exists [], []. rewrite !app_nil_r in *. repeat split; auto; constructor.
+    subst todo. exists [], []. rewrite !app_nil_r in *. cbn [pass_log app map filter].
+    split; [reflexivity|]. split; [constructor|]. split; [constructor|].
+    split; [reflexivity|]. split; [auto|]. split; [auto|constructor].
   - (* cut: exit requested *)
     destruct todo as [|c rest]; [exfalso; rewrite app_nil_r in E; unfold ids in E; rewrite <- E, map_length in L; lia|].
     destruct (nth_error (r_ctxs r) i) as [c00|] eqn:Hc; [|apply nth_error_None in Hc; lia].
@@ -151,11 +164,12 @@ Proof.
     + apply Forall_app. split; (eapply Forall_impl; [|eassumption]); cbn; intros; lia.
     + cbn [app]. rewrite app_assoc. constructor; [|rewrite <- app_assoc in P3; rewrite <- app_assoc; exact P3].
       rewrite <- app_assoc, !in_app_iff. intros [Hin|[Hin|Hin]].
-      * apply NoDup_app_elim in Nall. destruct Nall as (_ & Nc & _). inversion Nc; subst. apply H6. apply in_or_app; auto.
-      * apply NoDup_app_elim in Nall. destruct Nall as (_ & Nc & _). inversion Nc; subst. apply H6. apply in_or_app; auto.
+      * apply (NoDup_mid_notin _ _ _ Nall). apply in_or_app; auto.
+      * apply (NoDup_mid_notin _ _ _ Nall). apply in_or_app; auto.
       * rewrite Forall_forall in P2. specialize (P2 _ Hin).
-        destruct W as [_ Lt]. rewrite Forall_forall in Lt. assert (In c (ids r)) by (rewrite E; apply in_or_app; right; left; auto).
-        specialize (Lt _ H5). lia.
+        destruct W as [_ Lt]. rewrite Forall_forall in Lt.
+        assert (Inc : In c (ids r)) by (rewrite E; apply in_or_app; right; left; auto).
+        specialize (Lt _ Inc). lia.
     + destruct p.
       * destruct P4 as (Q1 & Q2 & Q3 & Q4). cbn [map]. rewrite Vid, Ec, Q1, <- app_assoc. split; auto. split; [|split; auto].
         -- cbn [filter]. unfold kept at 1. rewrite Vres. exact Q2.
@@ -178,14 +192,376 @@ Proof.
     + apply Forall_app. split; (eapply Forall_impl; [|eassumption]); cbn; intros; lia.
     + cbn [app]. rewrite app_assoc. constructor; [|rewrite <- app_assoc in P3; rewrite <- app_assoc; exact P3].
       rewrite <- app_assoc, !in_app_iff. intros [Hin|[Hin|Hin]].
-      * apply NoDup_app_elim in Nall. destruct Nall as (_ & Nc & _). inversion Nc; subst. apply H5. apply in_or_app; auto.
-      * apply NoDup_app_elim in Nall. destruct Nall as (_ & Nc & _). inversion Nc; subst. apply H5. apply in_or_app; auto.
+      * apply (NoDup_mid_notin _ _ _ Nall). apply in_or_app; auto.
+      * apply (NoDup_mid_notin _ _ _ Nall). apply in_or_app; auto.
       * rewrite Forall_forall in P2. specialize (P2 _ Hin).
-        destruct W as [_ Lt]. rewrite Forall_forall in Lt. assert (In c (ids r)) by (rewrite E; apply in_or_app; right; left; auto).
-        specialize (Lt _ H4). lia.
+        destruct W as [_ Lt]. rewrite Forall_forall in Lt.
+        assert (Inc : In c (ids r)) by (rewrite E; apply in_or_app; right; left; auto).
+        specialize (Lt _ Inc). lia.
     + destruct p.
       * destruct P4 as (Q1 & Q2 & Q3 & Q4). cbn [map]. rewrite Vid, Ec, Q1, <- app_assoc. split; auto. split; [|split; auto].
         -- cbn [filter]. unfold kept at 1. rewrite Vres. cbn [map]. rewrite Vid, Ec, Q2, <- app_assoc. reflexivity.
         -- constructor; auto. left. unfold kept. rewrite Vres. auto.
       * destruct P4 as (later & Q). exists later. cbn [map]. rewrite Vid, Ec. cbn [app]. rewrite <- Q, <- app_assoc. reflexivity.
+Qed.
+
+(* A complete pass: every script scheduled at its start gets exactly one turn, in list order, then the scripts
+   spawned meanwhile, in spawn order; the scripts still scheduled afterwards are those whose turn did not end
+   with "finished", in the same order. Nobody is skipped when a finished script is erased. *)
+Theorem round_robin_pass b1 b2 fuel r x x' r' log :
+  start_pass2 b1 b2 fuel r 0 x [] = Ok (PassDone2 x' r' log) -> wf_ids r ->
+  pass_order (ids r) log /\ pass_survivors log (ids r') /\ wf_ids r' /\
+  Forall (fun v => kept v = true \/ finished v = true) log.
+Proof.
+  intros H W. apply start_pass2_pass_run in H.
+  destruct (pass_run_round _ _ _ _ _ _ _ H [] (ids r) W eq_refl eq_refl) as (new & spawned & P1 & P2 & P3 & Q1 & Q2 & Q3 & Q4).
+  cbn in P1. subst new. split; [exists spawned; auto|]. split; [exact Q2|]. split; auto.
+Qed.
+
+(* A pass that is cut short (time limit, runtime error, or the last script finished): the turns taken are a
+   prefix of that same order. *)
+Theorem round_robin_pass_cut b1 b2 fuel r x x' r' log :
+  start_pass2 b1 b2 fuel r 0 x [] = Ok (PassExit2 x' r' log) -> wf_ids r ->
+  exists spawned later, ids r ++ spawned = map v_id log ++ later /\ NoDup (ids r ++ spawned).
+Proof.
+  intros H W. apply start_pass2_pass_run in H.
+  destruct (pass_run_round _ _ _ _ _ _ _ H [] (ids r) W eq_refl eq_refl) as (new & spawned & P1 & P2 & P3 & later & Q).
+  cbn in P1. subst new. exists spawned, later. auto.
+Qed.
+
+(* the passes of a run: each complete pass starts with the survivors of the one before, in the same order *)
+Fixpoint chained (start:list nat) (ps:list (list visit)) : Prop :=
+  match ps with
+  | [] => True
+  | [l] => pass_order start l \/ (exists spawned later, start ++ spawned = map v_id l ++ later /\ NoDup (start ++ spawned))
+  | l :: rest => pass_order start l /\ chained (map v_id (filter kept l)) rest
+  end.
+
+Lemma loop_run_chained b1 b2 r x ps x' r' ps' : loop_run b1 b2 r x ps x' r' ps' -> wf_ids r ->
+  exists new, ps' = ps ++ new /\ chained (ids r) new.
+Proof.
+  induction 1; intro W.
+  - exists []. rewrite app_nil_r. cbn. auto.
+  - exists [log]. split; auto. cbn. right.
+    destruct (pass_run_round _ _ _ _ _ _ _ H0 [] (ids r) W eq_refl eq_refl) as (new & spawned & P1 & P2 & P3 & later & Q).
+    cbn in P1. subst new. exists spawned, later. auto.
+  - destruct (pass_run_round _ _ _ _ _ _ _ H0 [] (ids r) W eq_refl eq_refl) as (new & spawned & P1 & P2 & P3 & Q1 & Q2 & Q3 & Q4).
+    cbn in P1. subst new. cbn [app] in Q2.
+    destruct (IHloop_run Q3) as (new2 & E & C). exists (log :: new2). rewrite E, <- app_assoc. split; auto.
+    assert (PO : pass_order (ids r) log) by (exists spawned; auto).
+    rewrite Q2 in C. destruct new2; cbn [chained]; auto.
+Qed.
+
+Theorem round_robin_run b1 b2 fuel r x x' r' ps :
+  start_loop2 b1 b2 fuel r x [] = Ok (x', r', ps) -> wf_ids r -> chained (ids r) ps.
+Proof.
+  intros H W. apply start_loop2_loop_run in H. destruct (loop_run_chained _ _ _ _ _ _ _ _ H W) as (new & E & C).
+  cbn in E. subst. auto.
+Qed.
+
+(* Between two consecutive turns of one script every other script that is scheduled throughout gets exactly one:
+   if pass k has the turns a ++ v :: b and v's script stays scheduled, the turns between this one and its next
+   (in pass k+1, which starts with the survivors of pass k in order) are b followed by the survivors of a, and
+   every other survivor of pass k occurs in them exactly once. *)
+Lemma count_occ_notin {A} (dec:forall x y:A, {x=y}+{x<>y}) l x : ~ In x l -> count_occ dec l x = 0.
+Proof. intro H. apply count_occ_not_In; auto. Qed.
+Lemma count_occ_NoDup_in {A} (dec:forall x y:A, {x=y}+{x<>y}) l x : NoDup l -> In x l -> count_occ dec l x = 1.
+Proof. intros N I. rewrite NoDup_count_occ with (decA := dec) in N. apply (count_occ_In dec) in I. specialize (N x). lia. Qed.
+Lemma filter_map_in (f:visit->bool) l x : In x (map v_id (filter f l)) -> In x (map v_id l).
+Proof. intro H. apply in_map_iff in H. destruct H as (v & E & I). apply filter_In in I. apply in_map_iff. exists v. tauto. Qed.
+Lemma NoDup_map_filter (f:visit->bool) l : NoDup (map v_id l) -> NoDup (map v_id (filter f l)).
+Proof.
+  induction l; cbn; intro H; [constructor|]. inversion H; subst. destruct (f a); cbn; auto.
+  constructor; auto. intro Hx. apply filter_map_in in Hx. auto.
+Qed.
+
+Theorem between_two_turns (a b:list visit) (v:visit) (t:nat) :
+  NoDup (map v_id (a ++ v :: b)) -> kept v = true ->
+  In t (map v_id (filter kept (a ++ v :: b))) -> t <> v_id v ->
+  count_occ Nat.eq_dec (map v_id b ++ map v_id (filter kept a)) t = 1.
+Proof.
+  intros N K I Ne.
+  rewrite filter_app in I. cbn [filter] in I. rewrite K in I. rewrite map_app in I. cbn [map] in I.
+  rewrite map_app in N. cbn [map] in N.
+  apply NoDup_app_elim in N. destruct N as (Na & Nvb & Dab). inversion Nvb; subst.
+  rewrite count_occ_app.
+  apply in_app_iff in I. destruct I as [I|[I|I]]; [| congruence |].
+  - (* t survived from a *)
+    rewrite (count_occ_NoDup_in _ _ _ (NoDup_map_filter kept a Na) I).
+    rewrite count_occ_notin; auto. intro Hb. apply (Dab t); [apply filter_map_in in I; auto|right; auto].
+  - (* t survived from b *)
+    assert (Ib : In t (map v_id b)) by (apply filter_map_in in I; auto).
+    rewrite (count_occ_NoDup_in _ _ _ H2 Ib).
+    rewrite count_occ_notin; auto. intro Ha. apply filter_map_in in Ha. apply (Dab t Ha). right; auto.
+Qed.
+
+(* ================================================================== sleep *)
+(* sleep d in a scheduled script: the script is suspended until the clock value read now plus d seconds *)
+Theorem sleep_sets_wakeup d r c : c_can_suspend c = true ->
+  op_unary "sleep" (VNum d) r c =
+    Ok (set_clock r (r_clock r + r_tick r)%Z, set_suspended c true (r_clock r + r_tick r + d * 1000000)%Z, VNil).
+Proof. intro H. cbn. rewrite H. reflexivity. Qed.
+
+(* a suspended script executes nothing: execute_do returns at once *)
+Theorem suspended_executes_nothing b fuel r n ki kr i c :
+  r_active r = Some i -> nth_error (r_ctxs r) i = Some c -> c_suspended c = true ->
+  r_exit_req r = false ->
+  execute_do2 b (S fuel) r (S n) ki kr = Ok (ROk, r, (ki, kr)).
+Proof.
+  intros Ha Hc Su Ex. cbn [execute_do2]. rewrite Ex. unfold do_iter2. rewrite Ex. unfold cur. rewrite Ha, Hc, Su. reflexivity.
+Qed.
+
+(* When the scheduler comes to a sleeping script it reads the clock once: the script gets its slice only if
+   that clock value is not before its wake-up time; otherwise nothing of it executes in this pass and it is
+   left as it is. *)
+Theorem no_early_wake b1 b2 r i c x r' v :
+  visit_ctx b1 b2 r i = Ok (x, r', v) -> nth_error (r_ctxs r) i = Some c ->
+  c_suspended c = true -> c_terminate c = false ->
+  (v_entered v = true -> (c_wakeup c <= r_clock r + r_tick r)%Z) /\
+  ((r_clock r + r_tick r < c_wakeup c)%Z ->
+     v_entered v = false /\ v_instr v = 0 /\ v_restarts v = 0 /\ (x = ROk -> nth_error (r_ctxs r') i = Some c)).
+Proof.
+  intros V Hc Su Te. destruct (visit_ctx_shape _ _ _ _ _ _ _ _ V Hc) as (_ & _ & Sh).
+  eapply visit_shape_sleep; eauto.
+Qed.
+
+(* ================================================================== scriptDone *)
+Theorem scriptdone_spec id r c :
+  op_unary "scriptdone" (VScript id) r c = Ok (r, c, VBool (negb (existsb (fun x => Nat.eqb (c_id x) id) (r_ctxs r)))).
+Proof. reflexivity. Qed.
+Lemma existsb_ids id l : existsb (fun x => Nat.eqb (c_id x) id) l = true <-> In id (map c_id l).
+Proof.
+  rewrite existsb_exists. split.
+  - intros (c & I & E). apply Nat.eqb_eq in E. subst. apply in_map; auto.
+  - intro H. apply in_map_iff in H. destruct H as (c & E & I). exists c. split; auto. apply Nat.eqb_eq; auto.
+Qed.
+(* scriptDone h is true exactly when no scheduled script has h's id *)
+Theorem scriptdone_true_iff id r c :
+  op_unary "scriptdone" (VScript id) r c = Ok (r, c, VBool true) <-> ~ In id (ids r).
+Proof.
+  rewrite scriptdone_spec. unfold ids. rewrite <- existsb_ids.
+  destruct (existsb _ _); cbn; split; intro H; try congruence; try reflexivity;
+  try (exfalso; apply H; reflexivity); try (intro; discriminate).
+Qed.
+
+(* a script is erased from the schedule only after a turn that found it without frames (nothing left to run) *)
+Theorem retired_only_when_finished b1 b2 r i c r2 v :
+  visit_ctx b1 b2 r i = Ok (REmpty, r2, v) -> nth_error (r_ctxs r) i = Some c -> r_exit_req r = false ->
+  exists c', nth_error (r_ctxs r2) i = Some c' /\ c_id c' = c_id c /\ c_frames c' = [] /\ c_suspended c' = false.
+Proof.
+  intros V Hc Ex. destruct (visit_ctx_shape _ _ _ _ _ _ _ _ V Hc) as (_ & _ & Sh).
+  destruct (visit_shape_exit _ _ _ _ _ _ _ _ Sh Hc Ex) as [_ E]. destruct (E eq_refl) as (_ & c' & N & F & S).
+  exists c'. repeat split; auto.
+  pose proof (vs_ctxs _ _ _ (visit_shape_vstep _ _ _ _ _ _ _ _ Sh Hc)) as (l1 & sp & E1 & F2 & _).
+  destruct (Forall2_nth_ex _ _ _ _ _ F2 Hc) as (c1 & N1 & Ok1).
+  rewrite E1, nth_error_app1 in N by (apply nth_error_Some; congruence). rewrite N1 in N. inversion N; subst.
+  apply ctx_ok_id; auto.
+Qed.
+
+Lemma remove_nth_notin {A} (l:list A) : forall i x, NoDup l -> nth_error l i = Some x -> ~ In x (remove_nth l i).
+Proof.
+  induction l; intros [|i] x N H; cbn in *; try discriminate; inversion N; subst.
+  - inversion H; subst. auto.
+  - intros [->|Hin]; [apply H2; eapply nth_error_In; eauto|eapply IHl; eauto].
+Qed.
+(* ... and once erased its id is not scheduled any more (scriptDone is true) *)
+Theorem scriptdone_true_once_retired b1 b2 r i c r2 v :
+  visit_ctx b1 b2 r i = Ok (REmpty, r2, v) -> nth_error (r_ctxs r) i = Some c -> wf_ids r ->
+  ~ In (c_id c) (ids (retire r2 i)) /\ wf_ids (retire r2 i) /\ c_id c < r_next_id (retire r2 i).
+Proof.
+  intros V Hc W. destruct (visit_ids _ _ _ _ _ _ _ _ V Hc W) as (_ & _ & sp & E2 & Fr & Nd & Le & W2).
+  assert (Q : nth_error (ids r2) i = Some (c_id c)).
+  { rewrite E2, nth_error_app1 by (unfold ids; rewrite map_length; apply nth_error_Some; congruence).
+    unfold ids. rewrite nth_error_map, Hc. reflexivity. }
+  split; [|split; [apply wf_ids_retire; auto|]].
+  - rewrite retire_ids. apply remove_nth_notin; auto. apply W2.
+  - rewrite retire_next_id. destruct W as [_ Lt]. rewrite Forall_forall in Lt.
+    assert (In (c_id c) (ids r)) by (unfold ids; apply in_map; eapply nth_error_In; eauto).
+    specialize (Lt _ H). lia.
+Qed.
+(* ... and it stays that way: ids are never reused *)
+Theorem retired_id_never_returns b1 b2 r i x r2 v id :
+  visit_ctx b1 b2 r i = Ok (x, r2, v) -> i < length (r_ctxs r) -> wf_ids r ->
+  ~ In id (ids r) -> id < r_next_id r -> ~ In id (ids r2) /\ id < r_next_id r2.
+Proof.
+  intros V Hi W Nin Lt. destruct (nth_error (r_ctxs r) i) as [c00|] eqn:Hc; [|apply nth_error_None in Hc; lia].
+  destruct (visit_ids _ _ _ _ _ _ _ _ V Hc W) as (_ & _ & sp & E2 & Fr & Nd & Le & W2).
+  split; [|lia]. rewrite E2, in_app_iff. intros [H|H]; auto. rewrite Forall_forall in Fr. specialize (Fr _ H). lia.
+Qed.
+
+(* ================================================================== terminate *)
+(* terminate h (another script, still scheduled, not yet terminated): its flag is raised, nothing else *)
+Theorem terminate_sets_flag id r c x :
+  existsb (fun y => Nat.eqb (c_id y) id) (r_ctxs r) = true -> Nat.eqb id (c_id c) = false ->
+  find (fun y => Nat.eqb (c_id y) id) (r_ctxs r) = Some x -> c_terminate x = false ->
+  op_unary "terminate" (VScript id) r c =
+    Ok (set_ctxs r (map (fun y => if Nat.eqb (c_id y) id then set_terminate y true else y) (r_ctxs r)), c, VNil).
+Proof. intros A B C D. cbn. rewrite A, B, C, D. reflexivity. Qed.
+Theorem terminate_self_sets_flag r c :
+  existsb (fun y => Nat.eqb (c_id y) (c_id c)) (r_ctxs r) = true -> c_terminate c = false ->
+  op_unary "terminate" (VScript (c_id c)) r c = Ok (r, set_terminate c true, VNil).
+Proof. intros A D. cbn. rewrite A, Nat.eqb_refl, D. reflexivity. Qed.
+
+(* the turn of a terminated script: nothing executes, the script is reported as finished *)
+Theorem terminated_turn b1 b2 r i c x r' v :
+  visit_ctx b1 b2 r i = Ok (x, r', v) -> nth_error (r_ctxs r) i = Some c -> c_terminate c = true ->
+  r_exit_req r = false -> 0 < r_slice r ->
+  x = REmpty /\ v_instr v = 0 /\ v_restarts v = 0.
+Proof.
+  intros V Hc Te Ex Sl. destruct (visit_ctx_shape _ _ _ _ _ _ _ _ V Hc) as (_ & _ & Sh).
+  destruct (visit_shape_terminated _ _ _ _ _ _ _ _ Sh Hc Te Ex Sl) as (A & B & C & _). auto.
+Qed.
+
+(* the flag stays raised until the script's turn comes, whatever the other scripts do *)
+Definition flagged (r:rt) (id:nat) : Prop := exists c, In c (r_ctxs r) /\ c_id c = id /\ c_terminate c = true.
+(* T: a set of script ids, all of them flagged as long as they are scheduled *)
+Definition term_inv (T:nat -> Prop) (r:rt) : Prop :=
+  wf_ids r /\ (forall id, T id -> id < r_next_id r) /\ (forall id, T id -> In id (ids r) -> flagged r id).
+
+Lemma NoDup_ids_same_ctx l c1 c2 j : NoDup (map c_id l) -> In c1 l -> nth_error l j = Some c2 -> c_id c1 = c_id c2 -> c1 = c2.
+Proof.
+  revert j; induction l; intros j N I H E; cbn in *; [contradiction|]. inversion N; subst.
+  destruct j; cbn in H.
+  - inversion H; subst. destruct I as [->|I]; auto. exfalso. apply H2. rewrite <- E. apply in_map; auto.
+  - destruct I as [->|I]; [|eauto]. exfalso. apply H2. rewrite E. apply in_map. eapply nth_error_In; eauto.
+Qed.
+
+Lemma visit_term_inv T b1 b2 r i x r2 v c00 :
+  visit_ctx b1 b2 r i = Ok (x, r2, v) -> nth_error (r_ctxs r) i = Some c00 -> term_inv T r ->
+  term_inv T r2 /\ (T (c_id c00) -> c_terminate c00 = true).
+Proof.
+  intros V Hc (W & Lt & Fl).
+  destruct (visit_ids _ _ _ _ _ _ _ _ V Hc W) as (_ & _ & sp & E2 & Fr & Nd & Le & W2).
+  destruct (visit_ctx_shape _ _ _ _ _ _ _ _ V Hc) as (_ & _ & Sh).
+  pose proof (vs_ctxs _ _ _ (visit_shape_vstep _ _ _ _ _ _ _ _ Sh Hc)) as (l1 & sp0 & E1 & F2 & _).
+  split; [split; [auto|split]|].
+  - intros id Tid. specialize (Lt _ Tid). lia.
+  - intros id Tid Hin. rewrite E2, in_app_iff in Hin. destruct Hin as [Hin|Hin].
+    + destruct (Fl _ Tid Hin) as (c & Ic & Eid & Fc).
+      destruct (In_nth_error _ _ Ic) as [j Hj]. destruct (Forall2_nth_ex _ _ _ _ _ F2 Hj) as (c1 & N1 & Ok1).
+      exists c1. split; [rewrite E1; apply in_or_app; left; eapply nth_error_In; eauto|].
+      split; [rewrite (ctx_ok_id _ _ Ok1); auto|eapply ctx_ok_flag; eauto].
+    + rewrite Forall_forall in Fr. specialize (Fr _ Hin). specialize (Lt _ Tid). lia.
+  - intro Tc. assert (Hin : In (c_id c00) (ids r)) by (unfold ids; apply in_map; eapply nth_error_In; eauto).
+    destruct (Fl _ Tc Hin) as (c & Ic & Eid & Fc). destruct W as [Nd0 _].
+    rewrite <- (NoDup_ids_same_ctx _ _ _ _ Nd0 Ic Hc Eid). auto.
+Qed.
+
+Lemma remove_nth_in_other {A} (l:list A) : forall i x, In x l -> nth_error l i <> Some x -> In x (remove_nth l i).
+Proof.
+  induction l; intros [|i] x I H; cbn in *; auto.
+  - destruct I as [->|I]; auto. congruence.
+  - destruct I as [->|I]; auto.
+Qed.
+Lemma retire_term_inv T r2 i : term_inv T r2 -> term_inv T (retire r2 i).
+Proof.
+  intros (W & Lt & Fl). split; [apply wf_ids_retire; auto|split].
+  - intros id Tid. rewrite retire_next_id. auto.
+  - intros id Tid Hin. rewrite retire_ids in Hin.
+    destruct (Fl _ Tid (remove_nth_incl _ _ _ Hin)) as (c & Ic & Eid & Fc).
+    exists c. split; auto. rewrite retire_ctxs. apply remove_nth_in_other; auto.
+    intro Hn. destruct W as [Nd _].
+    assert (Q : nth_error (ids r2) i = Some id) by (unfold ids; rewrite nth_error_map, Hn; cbn; congruence).
+    apply (remove_nth_notin _ _ _ Nd Q). auto.
+Qed.
+
+Lemma visit_keeps_exit_slice b1 b2 r i x r2 v : visit_ctx b1 b2 r i = Ok (x, r2, v) -> i < length (r_ctxs r) ->
+  r_slice r2 = r_slice r.
+Proof.
+  intros V Hi. destruct (nth_error (r_ctxs r) i) as [c00|] eqn:Hc; [|apply nth_error_None in Hc; lia].
+  destruct (visit_ctx_shape _ _ _ _ _ _ _ _ V Hc) as (_ & _ & Sh).
+  pose proof (vs_cfg _ _ _ (visit_shape_vstep _ _ _ _ _ _ _ _ Sh Hc)) as C. unfold rcfg in C. congruence.
+Qed.
+
+(* in a pass (from any index on) every turn of a script of T executes nothing and reports it as finished *)
+Lemma pass_run_terminated T b1 b2 r i x log p : pass_run b1 b2 r i x log p ->
+  r_exit_req r = false -> 0 < r_slice r -> term_inv T r ->
+  exists new, pass_log p = log ++ new /\
+    Forall (fun v => T (v_id v) -> v_instr v = 0 /\ v_restarts v = 0 /\ v_result v = REmpty) new /\
+    match p with PassDone2 _ r' _ => r_exit_req r' = false /\ 0 < r_slice r' /\ term_inv T r' | _ => True end.
+Proof.
+  assert (Turn : forall r i x r2 v, i < length (r_ctxs r) -> visit_ctx b1 b2 r i = Ok (x, r2, v) ->
+            r_exit_req r = false -> 0 < r_slice r -> term_inv T r ->
+            (T (v_id v) -> v_instr v = 0 /\ v_restarts v = 0 /\ v_result v = REmpty) /\ term_inv T r2 /\ r_slice r2 = r_slice r).
+  { intros r0 i0 x0 r2 v Hi V Ex Sl Inv.
+    destruct (nth_error (r_ctxs r0) i0) as [c00|] eqn:Hc; [|apply nth_error_None in Hc; lia].
+    destruct (visit_term_inv _ _ _ _ _ _ _ _ _ V Hc Inv) as [Inv2 Fl].
+    destruct (visit_ctx_shape _ _ _ _ _ _ _ _ V Hc) as (Vid & Vres & _).
+    split; [|split; auto; eapply visit_keeps_exit_slice; eauto].
+    intro Tv. rewrite Vid in Tv. destruct (terminated_turn _ _ _ _ _ _ _ _ V Hc (Fl Tv) Ex Sl) as (A & B & C).
+    rewrite Vres. auto. }
+  induction 1; intros Ex Sl Inv.
+  - exists []. rewrite app_nil_r. split; [reflexivity|]. split; [constructor|]. auto.
+  - destruct (Turn _ _ _ _ _ H H0 Ex Sl Inv) as (A & _ & _). exists [v]. repeat split; auto.
+  - destruct (Turn _ _ _ _ _ H H0 Ex Sl Inv) as (A & _ & _). exists [v]. repeat split; auto.
+  - destruct (Turn _ _ _ _ _ H H0 Ex Sl Inv) as (A & _ & _). exists [v]. repeat split; auto.
+  - destruct (Turn _ _ _ _ _ H H0 Ex Sl Inv) as (A & Inv2 & Sl2).
+    destruct IHpass_run as (new & E & F & G).
+    + rewrite retire_exit; auto.
+    + pose proof (retire_cfg r2 i) as C. unfold rcfg in C. assert (r_slice (retire r2 i) = r_slice r2) by congruence. lia.
+    + apply retire_term_inv; auto.
+    + exists (v :: new). rewrite E, <- app_assoc. split; auto.
+  - destruct (Turn _ _ _ _ _ H H0 Ex Sl Inv) as (A & Inv2 & Sl2).
+    destruct IHpass_run as (new & E & F & G); auto; [lia|].
+    exists (v :: new). rewrite E, <- app_assoc. split; auto.
+Qed.
+
+Lemma loop_run_terminated T b1 b2 r x ps x' r' ps' : loop_run b1 b2 r x ps x' r' ps' ->
+  r_exit_req r = false -> 0 < r_slice r -> term_inv T r ->
+  exists new, ps' = ps ++ new /\
+    Forall (Forall (fun v => T (v_id v) -> v_instr v = 0 /\ v_restarts v = 0 /\ v_result v = REmpty)) new.
+Proof.
+  induction 1; intros Ex Sl Inv.
+  - exists []. rewrite app_nil_r. auto.
+  - destruct (pass_run_terminated T _ _ _ _ _ _ _ H0 Ex Sl Inv) as (new & E & F & _). cbn in E. subst log.
+    exists [new]. auto.
+  - destruct (pass_run_terminated T _ _ _ _ _ _ _ H0 Ex Sl Inv) as (new & E & F & Ex1 & Sl1 & Inv1). cbn in E. subst log.
+    destruct (IHloop_run Ex1 Sl1 Inv1) as (new2 & E2 & F2). exists (new :: new2). rewrite E2, <- app_assoc. auto.
+Qed.
+
+(* A script whose terminate flag is up executes no instruction in any later turn: every turn it gets, in this
+   pass and in all later passes of the run, executes nothing and reports it as finished. *)
+Theorem terminated_runs_nothing b1 b2 fuel r x x' r' ps :
+  start_loop2 b1 b2 fuel r x [] = Ok (x', r', ps) -> r_exit_req r = false -> 0 < r_slice r -> wf_ids r ->
+  Forall (Forall (fun v => flagged r (v_id v) -> v_instr v = 0 /\ v_restarts v = 0 /\ v_result v = REmpty)) ps.
+Proof.
+  intros H Ex Sl W. apply start_loop2_loop_run in H.
+  destruct (loop_run_terminated (flagged r) _ _ _ _ _ _ _ _ H Ex Sl) as (new & E & F).
+  - split; auto. split; auto.
+    intros id (c & Ic & Eid & _). destruct W as [_ Lt]. rewrite Forall_forall in Lt. apply Lt. unfold ids. rewrite <- Eid. apply in_map; auto.
+  - cbn in E. subst. auto.
+Qed.
+
+(* ... and it is erased by the first complete pass that starts after the flag went up. *)
+Theorem terminated_removed_by_next_pass b1 b2 fuel r x x' r' log id :
+  start_pass2 b1 b2 fuel r 0 x [] = Ok (PassDone2 x' r' log) ->
+  r_exit_req r = false -> 0 < r_slice r -> wf_ids r -> flagged r id ->
+  ~ In id (ids r').
+Proof.
+  intros H Ex Sl W Fl.
+  destruct (round_robin_pass _ _ _ _ _ _ _ _ H W) as ((spawned & PO & Nd) & PS & _ & _).
+  apply start_pass2_pass_run in H.
+  destruct (pass_run_terminated (flagged r) _ _ _ _ _ _ _ H Ex Sl) as (new & E & F & _).
+  - split; auto. split; auto.
+    intros id0 (c & Ic & Eid & _). destruct W as [_ Lt]. rewrite Forall_forall in Lt. apply Lt. unfold ids. rewrite <- Eid. apply in_map; auto.
+  - cbn in E. subst new. rewrite PS. intro Hin. apply in_map_iff in Hin. destruct Hin as (v & Ev & Iv).
+    apply filter_In in Iv. destruct Iv as [Iv K]. rewrite Forall_forall in F. specialize (F _ Iv).
+    rewrite Ev in F. destruct (F Fl) as (_ & _ & R). unfold kept in K. rewrite R in K. discriminate.
+Qed.
+
+(* ================================================================== isolation (part of it) *)
+(* A turn of script i leaves every other scheduled script exactly as it was - frames, operand stack, local
+   variables, suspension - except that its terminate flag may have been raised. (That the values a script
+   computes do not depend on the interleaving with scripts it shares no global data with is NOT proved here:
+   it needs a footprint analysis of every operator over namespaces and the clock.) *)
+Theorem other_scripts_untouched b1 b2 r i x r' v c0 j c :
+  visit_ctx b1 b2 r i = Ok (x, r', v) -> nth_error (r_ctxs r) i = Some c0 ->
+  j <> i -> nth_error (r_ctxs r) j = Some c ->
+  exists c', nth_error (r_ctxs r') j = Some c' /\ (c' = c \/ c' = set_terminate c true).
+Proof.
+  intros V Hc Hj Hn. destruct (visit_ctx_shape _ _ _ _ _ _ _ _ V Hc) as (_ & _ & Sh).
+  pose proof (vs_ctxs _ _ _ (visit_shape_vstep _ _ _ _ _ _ _ _ Sh Hc)) as (l1 & sp & E1 & F2 & _ & O).
+  destruct (Forall2_nth_ex _ _ _ _ _ F2 Hn) as (c1 & N1 & _).
+  exists c1. split; [rewrite E1, nth_error_app1; auto; apply nth_error_Some; congruence|].
+  apply (O j c c1 Hj Hn N1).
 Qed.
